@@ -116,13 +116,17 @@ static void run_pairs(void) {
                 SegmentationError, ProgramTerminationError, UserErrA, UserErrB, UserErr, IOErrorRetry, IOKind, TryKindA, TryKindB, PlainK11, PlainK12, PlainK21 };
   for (int fi = 0; fi < NK; fi++) for (int ti = 0; ti < NK; ti++) {
     if (kind_sort(fi) != kind_sort(ti)) continue;      /* kinds of one sort per program: type objects, or objects of the user type */
-    volatile int inner = 0, outer = 0, bound = -1, after = 0; volatile long d0 = depth_now();
-    try {
-      try { throw(K[ti], "pair %i %i", $I(fi), $I(ti)); } catch (e in K[fi]) { inner++; for (int k = 0; k < NK; k++) if (e == K[k]) bound = k; }
-      after = 1;
-    } catch (e) { outer++; for (int k = 0; k < NK; k++) if (e == K[k]) bound = k; }
-    ev_begin("pair"); ev_int("f", fi); ev_int("t", ti); ev_int("inner", inner); ev_int("outer", outer); ev_int("bound", bound);
-    ev_int("after", after); ev_int("d0", d0); ev_int("d1", depth_now()); ev_end();
+    for (int dup = 0; dup < 2; dup++) {           /* dup: the filter names its kind twice, with another kind in between */
+      if (dup && (fi + ti) % 3) continue;
+      volatile int inner = 0, outer = 0, bound = -1, after = 0; volatile long d0 = depth_now();
+      try {
+        if (!dup) { try { throw(K[ti], "pair %i %i", $I(fi), $I(ti)); } catch (e in K[fi]) { inner++; for (int k = 0; k < NK; k++) if (e == K[k]) bound = k; } }
+        else { try { throw(K[ti], "pair %i %i", $I(fi), $I(ti)); } catch (e in K[fi], K[fi]) { inner++; for (int k = 0; k < NK; k++) if (e == K[k]) bound = k; } }
+        after = 1;
+      } catch (e) { outer++; for (int k = 0; k < NK; k++) if (e == K[k]) bound = k; }
+      ev_begin("pair"); ev_int("f", fi); ev_int("t", ti); ev_int("dup", dup); ev_int("inner", inner); ev_int("outer", outer); ev_int("bound", bound);
+      ev_int("after", after); ev_int("d0", d0); ev_int("d1", depth_now()); ev_end();
+    }
   }
 }
 
